@@ -246,6 +246,7 @@ func forestProp(c forestCase) common.Result {
 	ref := &refState{bs: c.Blocks, known: make([]bool, k), lock: -1}
 	presented := make([]bool, k)
 	refused, committed, lockMoved := 0, 0, 0
+	var committedView hotstuff.View
 	desc := func() string { return fmt.Sprintf("rules=%s blocks=%+v order=%+v", c.Rules, c.Blocks, c.Order) }
 	for step, p := range c.Order {
 		i := p.Blk
@@ -302,6 +303,12 @@ func forestProp(c forestCase) common.Result {
 		}
 		if !gotNone {
 			committed++
+			if gotB.View() > committedView {
+				// the committer's next step: the committed block moves on and the chain is pruned up to its height
+				// (forked blocks are reported for aborting; no rule decision may depend on that)
+				bc.PruneToHeight(gotB, gotB.View())
+				committedView = gotB.View()
+			}
 		}
 		if ref.lock != oldLock {
 			lockMoved++
